@@ -17,7 +17,7 @@
 From Coq Require Import ZArith List Permutation Sorting.Sorted.
 From PF Require Import Gen.Tables Lib.ListX Lib.Calendar Lib.CalendarSpec Model.Ragged Model.Mapper Model.MapperSpec
   Model.Converter Model.ConverterSpec Proofs.CalendarFacts Proofs.CalendarGregorian Proofs.MapperProofs
-  Proofs.ConverterProofs.
+  Proofs.ConverterProofs Proofs.StringProofs.
 Import ListNotations.
 
 (* ---- numerical: the float value; missing -> NaN ------------------------- *)
@@ -99,6 +99,23 @@ Print Assumptions multicategorical_blank_cell.
 Theorem multicategorical_string_tokens_ok : forall sep s, tokens_ok sep (MCStr s).
 Proof. exact tokens_ok_str. Qed.
 Print Assumptions multicategorical_string_tokens_ok.
+
+(* what "the tokens of a delimiter-joined cell" are, independently of the scanning code of Model/Mapper.v
+   (torch_frame/data/mapper.py split_by_sep: row.split(sep), cat.strip()): splitting loses nothing -- joining the
+   pieces with the separator gives the cell back, and there is at least one piece -- and stripping removes exactly a
+   whitespace prefix and a whitespace suffix, leaving a string that neither starts nor ends with whitespace.
+   (Python's str.split / str.strip are compared with these primitives on every generated cell: check_split.) *)
+Theorem split_loses_nothing : forall s sep pieces,
+  py_split s sep = Some pieces -> py_join sep pieces = s /\ pieces <> [].
+Proof. exact py_split_join. Qed.
+Print Assumptions split_loses_nothing.
+
+Theorem strip_removes_surrounding_whitespace : forall s, exists a b,
+  s = a ++ py_strip s ++ b /\ forallb py_isspace a = true /\ forallb py_isspace b = true /\
+  (py_strip s = [] \/
+   ((exists c r, py_strip s = c :: r /\ py_isspace c = false) /\ (exists r c, py_strip s = r ++ [c] /\ py_isspace c = false))).
+Proof. exact py_strip_spec. Qed.
+Print Assumptions strip_removes_surrounding_whitespace.
 
 (* a cell that does not fit the separator configuration makes forward raise *)
 Theorem multicategorical_ill_typed_raises : forall (L : Type) dt cats sep (s : @series L mc_cell),
@@ -268,3 +285,9 @@ Example categorical_example :
   categorical_encode ex_cats [(5, Some (VStr [97])); (5, None); (9, Some (VStr [122])); (1, Some (VInt 97))] =
   [[SInt 1]; [SInt (-1)]; [SInt (-1)]; [SInt (-1)]].
 Proof. split; [repeat constructor; simpl; intuition discriminate | vm_compute; reflexivity]. Qed.
+
+Example split_strip_example :
+  py_split [32; 97; 58; 58; 98; 32; 58; 58]%Z [58; 58]%Z = Some [[32; 97]; [98; 32]; []]%Z /\
+  py_join [58; 58]%Z [[32; 97]; [98; 32]; []]%Z = [32; 97; 58; 58; 98; 32; 58; 58]%Z /\
+  py_strip [160; 9; 97; 32; 98; 12288]%Z = [97; 32; 98]%Z.
+Proof. vm_compute. repeat split; reflexivity. Qed.
